@@ -1139,6 +1139,20 @@ func (r *Resolver) answer(ctx context.Context, req, resp *dns.Msg, parentDS []dn
 		}
 	}
 
+	// A server speaks for the zone it was asked about and for nothing else.
+	// Validation already treats an out-of-zone answer record as fatal; where
+	// no validation ran — an unsigned zone, a CD query, DNSSEC off — the same
+	// record used to travel on to the client inside the answer, and the cache
+	// chase stops at the first record of the queried type whoever owns it:
+	// "q1.evil. CNAME www.victim." plus a forged "www.victim. A" in one
+	// message answered the client with the forged address. Drop what the
+	// asked zone cannot own; the alias chase resolves a target through the
+	// target's own servers. (A DNAME's out-of-zone target data is spliced in
+	// below from its own, separately resolved, response.)
+	if zone != "" {
+		resp.Answer = dnsutil.FilterRRsToZone(resp.Answer, zone)
+	}
+
 	if targetMsg != nil {
 		// Splice the target response into resp *after* DNSSEC check.
 		// The internal recursion already validated the target zone
